@@ -535,10 +535,11 @@ def run(ctx):
     ctx.guarded('C07-D9', 'fits.py:_extract_val_and_dval', C19.d2_prior, ctx, 'C07-D9')
     ctx.rule('C07-D10', 'minimiser objectives: uncorrelated first stage, correlated refinement (sibling rule)')
     ctx.guarded('C07-D10', 'fits.py:least_squares@objectives', d10_objectives, ctx, fits)
-    from .. import unusedparams
-    ctx.rule('C07-D11', 'every accepted option is read (no silently ignored parameter)')
+    from .. import unusedparams, leakedloop
+    ctx.rule('C07-D11', 'every accepted option is read (no silently ignored parameter); no loop variable read after its loop')
     for mn_ in ('fits',):
         ctx.guarded('C07-D11', mn_ + '@parameters', unusedparams.check, ctx, 'C07-D11', ctx.repo.mod(mn_))
+        ctx.guarded('C07-D11', mn_ + '@loop-variables', leakedloop.check, ctx, 'C07-D11', ctx.repo.mod(mn_))
 
 
 
